@@ -50,20 +50,9 @@ Definition roles_ok (ir : sel_params * sel_params) : bool :=
   let '(i, r) := ir in
   match spec_method i r with
   | (false, Passkey ri rr) =>
-      pin_src_eqb (get_pin_code_source (iocap_code (sp_io i))) (spec_pin_src ri)
-      && pin_src_eqb (get_pin_code_source (iocap_code (sp_io r))) (spec_pin_src rr)
+      pin_src_eqb (get_pin_code_source true (iocap_code (sp_io i)) (iocap_code (sp_io r))) (spec_pin_src ri)
+      && pin_src_eqb (get_pin_code_source false (iocap_code (sp_io r)) (iocap_code (sp_io i))) (spec_pin_src rr)
   | _ => true
-  end.
-
-(** The class of the known finding: the specification asks a KeyboardDisplay device
-    to INPUT the passkey in LE legacy Passkey Entry. *)
-Definition kd_must_input (ir : sel_params * sel_params) : bool :=
-  let '(i, r) := ir in
-  match spec_method i r with
-  | (false, Passkey ri rr) =>
-      (match sp_io i, ri with KeyboardDisplay, Inputs => true | _, _ => false end)
-      || (match sp_io r, rr with KeyboardDisplay, Inputs => true | _, _ => false end)
-  | _ => false
   end.
 
 (** ---- correspondence entry points (evaluated by the harness on the LIVE function) ---- *)
@@ -89,10 +78,10 @@ Definition check_live_is_spec (c : (bool * bool * bool * N) * (bool * bool * boo
   | _, _ => false
   end.
 
-(** get_pin_code: (own iocap code, live source: true = typed by the user) *)
-Definition check_pin_source (c : N * bool) : bool :=
-  let '(io, typed) := c in
-  pin_src_eqb (get_pin_code_source io) (if typed then PinTyped else PinGenerated).
+(** get_pin_code: (is_initiator, own iocap code, peer iocap code, live source: true = typed by the user) *)
+Definition check_pin_source (c : bool * N * N * bool) : bool :=
+  let '(init, io, peer, typed) := c in
+  pin_src_eqb (get_pin_code_source init io peer) (if typed then PinTyped else PinGenerated).
 
 (** passkey roles of Table 2.8 as codes, for the harness's scripted user
     (0 Just Works, 1 initiator displays / responder inputs, 2 responder displays / initiator inputs,
